@@ -176,7 +176,32 @@ def field_obj(f, next_gen):
     arg = field_on_arg(f)
     if arg is not None or f.get("pass_none"):
         kw["on_setattr"] = arg
+    if f.get("init") is False:
+        kw["init"] = False
+    if f.get("dflt"):
+        kw["default"] = "dflt." + f["tag"]
     return (attrs.field if next_gen else attr.ib)(**kw)
+
+
+def make_prior(p, idx, k):
+    """a class some decorator OBJECT is applied to before it is applied to the class under test"""
+    base = object
+    if p["base"] == "frozen":
+        base = attr.s(frozen=True)(type("PriorFrozenBase", (object,), {"a": attr.ib(default=0)}))
+    elif p["base"] == "hooked":
+        base = attr.s(on_setattr=user_hook(990))(type("PriorHookedBase", (object,), {"a": attr.ib(default=0)}))
+    elif p["base"] == "plain":
+        base = type("PriorPlainBase", (object,), {})
+    ns = {"__module__": "verif_c06"}
+    if p.get("own"):
+        ns["__setattr__"] = own_setattr
+    fkw = {}
+    if p.get("conv"):
+        fkw["converter"] = mk_converter(f"prior{idx}.{k}", "plain")
+    if p.get("val"):
+        fkw["validator"] = mk_validator(f"prior{idx}.{k}", 0)
+    ns["q"] = attr.ib(default="d", **fkw)
+    return type(f"Prior{idx}_{k}", (base,), ns)
 
 
 def _bases(cs, base, idx):
@@ -261,7 +286,15 @@ def build_class(cs, base, idx):
     if anns:
         ns["__annotations__"] = anns
     cls = type(name, bases, ns)
-    return deco(**kw)(cls)
+    wrap = deco(**kw)
+    # decorator-object reuse: the same object returned by attr.s(...)/define(...) is first applied to other classes
+    # (whatever happens to them, including a definition error, must not change what it does for this class)
+    for k, prior in enumerate(cs.get("deco_prior") or []):
+        try:
+            wrap(make_prior(prior, idx, k))
+        except Exception:  # noqa: BLE001
+            pass
+    return wrap(cls)
 
 
 _CACHE: dict = {}
@@ -347,7 +380,7 @@ def _read(inst, names):
 
 def _ctor_value(C, fields, a):
     """value of field a.name on a fresh instance constructed with that field = a.value; no faults, not traced"""
-    if not any(f["name"] == a["name"] for f in fields):
+    if not any(f["name"] == a["name"] and f.get("init", True) for f in fields):
         return None
     saved_self, saved_fault = SELF[0], FAULT_POS[0]
     RECORD[0] = False
@@ -355,7 +388,8 @@ def _ctor_value(C, fields, a):
     try:
         inst = C.__new__(C)
         SELF[0] = inst
-        kw = {alias(f["name"]): (pyval(a["value"]) if f["name"] == a["name"] else "i." + f["name"]) for f in fields}
+        kw = {alias(f["name"]): (pyval(a["value"]) if f["name"] == a["name"] else "i." + f["name"])
+              for f in fields if f.get("init", True)}
         inst.__init__(**kw)
         return canon(object.__getattribute__(inst, a["name"]))
     except BaseException:  # noqa: BLE001
